@@ -14,7 +14,7 @@ import random
 from common import Check, batch, vacuity
 import refactor as rf
 
-EXPRS = {"int", "str", "bool", "var", "paren", "bin", "list", "tuple", "ctor", "call", "mcall", "dot", "slit"}
+EXPRS = {"int", "str", "bool", "var", "paren", "bin", "list", "tuple", "ctor", "call", "mcall", "dot", "slit", "dlit"}
 
 
 def nerrors(r):
@@ -50,7 +50,7 @@ def run(tier, seed):
     rnd = random.Random(seed * 73 + 21)
     import gen_prog
     import refrun
-    progs, srcs = refrun.gen_programs(seed + 211, 120 if tier == "quick" else 1200, 5, err_rate=0.0, features={"ext": True})
+    progs, srcs = refrun.gen_programs(seed + 211, 120 if tier == "quick" else 1200, 5, err_rate=0.0, features={"ext": True, "ext2": "half"})
     for p in progs:
         if p["id"] % 4 == 0:
             add_typed_shapes(p)
